@@ -91,58 +91,65 @@ end
 
 /-! ### `FlagsLift` as rendered by the Rust backend (crates/rust/src/bindgen.rs)
 
-`Name::empty() | Name::from_bits_retain(((op_i as REPR) << 32*i) as _) | …` where each `op_i` is an
-`i32` and `REPR` is `u8/u16/u32/u64/u128`: the cast of a *signed* 32-bit operand to a wider unsigned
-type sign-extends. -/
+`Name::empty() | Name::from_bits_retain(((op_i as u32 as REPR) << 32*i) as _) | …` where each `op_i`
+is an `i32` and `REPR` is `u8/u16/u32/u64/u128`.  Before /repo commit 1288bae the cast was
+`op_i as REPR`, which sign-extends a *signed* 32-bit operand into a wider unsigned type
+(`signExt = true` below; finding `flags-lift-sign-extends-word`).  The check reads the rendering off
+the generated text and evaluates the matching variant. -/
 
 /-- width in bits of `RustFlagsRepr` -/
 def flagsReprBits (n : Nat) : Nat :=
   if n ≤ 8 then 8 else if n ≤ 16 then 16 else if n ≤ 32 then 32 else if n ≤ 64 then 64 else 128
 
-/-- `(w as i32) as uN` for a 32-bit pattern `w` -/
+/-- `(w as i32) as uN` for a 32-bit pattern `w` (rendering before 1288bae) -/
 def castI32 (bits : Nat) (w : Nat) : Nat :=
   let w := w % 2 ^ 32
   if bits ≤ 32 then w % 2 ^ bits
   else if w < 2 ^ 31 then w else w + (2 ^ bits - 2 ^ 32)
 
+/-- `(w as i32) as u32 as uN` (current rendering) -/
+def castU32 (bits : Nat) (w : Nat) : Nat := (w % 2 ^ 32) % 2 ^ bits
+
 /-- the OR of the shifted words, in the representation type -/
-def rustFlagsBits (bits : Nat) : List Nat → Nat → Nat
+def rustFlagsBits (signExt : Bool) (bits : Nat) : List Nat → Nat → Nat
   | [], _ => 0
-  | w :: ws, i => ((castI32 bits w * 2 ^ (32 * i)) % 2 ^ bits) ||| rustFlagsBits bits ws (i + 1)
+  | w :: ws, i =>
+      (((if signExt then castI32 bits w else castU32 bits w) * 2 ^ (32 * i)) % 2 ^ bits) |||
+        rustFlagsBits signExt bits ws (i + 1)
 
 /-- the flags value the generated code produces from the core words -/
-def flagsLiftRust (n : Nat) (ws : List Nat) : List Bool :=
-  (List.range n).map fun i => (rustFlagsBits (flagsReprBits n) ws 0).testBit i
+def flagsLiftRust (signExt : Bool) (n : Nat) (ws : List Nat) : List Bool :=
+  (List.range n).map fun i => (rustFlagsBits signExt (flagsReprBits n) ws 0).testBit i
 
 mutual
 /-- what the Rust code observes when the host sends `v : t` (host → guest direction): the identity
 except for the `FlagsLift` rendering above -/
-def rustObserve : Ty → Val → Val
+def rustObserve (sx : Bool) : Ty → Val → Val
   | .flags n, .flags bs =>
-      .flags (flagsLiftRust n ((List.range (flagsRepr n).count).map fun w => Spec.flagsWord bs w))
-  | .list e, .list vs => .list (rustObserveAll e vs)
-  | .flist e _, .list vs => .list (rustObserveAll e vs)
-  | .map k v, .list vs => .list (rustObserveEntries k v vs)
-  | .record fs, .record vs => .record (rustObserveFields fs vs)
-  | .tuple fs, .record vs => .record (rustObserveFields fs vs)
+      .flags (flagsLiftRust sx n ((List.range (flagsRepr n).count).map fun w => Spec.flagsWord bs w))
+  | .list e, .list vs => .list (rustObserveAll sx e vs)
+  | .flist e _, .list vs => .list (rustObserveAll sx e vs)
+  | .map k v, .list vs => .list (rustObserveEntries sx k v vs)
+  | .record fs, .record vs => .record (rustObserveFields sx fs vs)
+  | .tuple fs, .record vs => .record (rustObserveFields sx fs vs)
   | .variant cs, .variant i pv => .variant i (match cs[i]? with
-      | some c => rustObserveOpt c pv
+      | some c => rustObserveOpt sx c pv
       | none => pv)
-  | .option t, .variant i (some v) => .variant i (some (rustObserve t v))
-  | .result a _, .variant 0 pv => .variant 0 (rustObserveOpt a pv)
-  | .result _ b, .variant i pv => .variant i (rustObserveOpt b pv)
+  | .option t, .variant i (some v) => .variant i (some (rustObserve sx t v))
+  | .result a _, .variant 0 pv => .variant 0 (rustObserveOpt sx a pv)
+  | .result _ b, .variant i pv => .variant i (rustObserveOpt sx b pv)
   | _, v => v
-def rustObserveAll : Ty → List Val → List Val
+def rustObserveAll (sx : Bool) : Ty → List Val → List Val
   | _, [] => []
-  | t, v :: vs => rustObserve t v :: rustObserveAll t vs
-def rustObserveEntries : Ty → Ty → List Val → List Val
-  | k, v, .record [x, y] :: vs => .record [rustObserve k x, rustObserve v y] :: rustObserveEntries k v vs
+  | t, v :: vs => rustObserve sx t v :: rustObserveAll sx t vs
+def rustObserveEntries (sx : Bool) : Ty → Ty → List Val → List Val
+  | k, v, .record [x, y] :: vs => .record [rustObserve sx k x, rustObserve sx v y] :: rustObserveEntries sx k v vs
   | _, _, vs => vs
-def rustObserveFields : List Ty → List Val → List Val
-  | t :: ts, v :: vs => rustObserve t v :: rustObserveFields ts vs
+def rustObserveFields (sx : Bool) : List Ty → List Val → List Val
+  | t :: ts, v :: vs => rustObserve sx t v :: rustObserveFields sx ts vs
   | _, vs => vs
-def rustObserveOpt : Option Ty → Option Val → Option Val
-  | some t, some v => some (rustObserve t v)
+def rustObserveOpt (sx : Bool) : Option Ty → Option Val → Option Val
+  | some t, some v => some (rustObserve sx t v)
   | _, pv => pv
 end
 
